@@ -632,14 +632,14 @@ def _lex_parse_check(rep, rac, strings):
         if pos != len(b):
             bad = bad or f"tokens cover {pos} of {len(b)} bytes"
         if bad:
-            rep.fail("lexer: " + bad, query=s, expected="non-empty tokens covering the input exactly on character boundaries", actual=json.dumps(toks)[:300])
+            rep.fail("lexer: " + bad, query=s, expected="non-empty tokens covering the input exactly on character boundaries", actual=json.dumps(toks)[:300], cmd={"cmd": "lex", "s": s}, raw=lx)
             continue
         if "panic" in pr or "tree_error" in pr:
             rep.fail("parser failed", query=s, expected="a tree", actual=json.dumps(pr)[:200])
             continue
         leaves = [(st, en, kind) for (_, kind, st, en, has) in pr["nodes"] if not has and en > st]
         if leaves != spans:
-            rep.fail("tree leaves differ from the token sequence", query=s, expected=json.dumps(spans)[:300], actual=json.dumps(leaves)[:300])
+            rep.fail("tree leaves differ from the token sequence", query=s, expected=json.dumps(spans)[:300], actual=json.dumps(leaves)[:300], cmd={"cmd": "parse", "s": s}, raw=pr)
 
 
 def c12(rac, units, tier, seed):
@@ -789,7 +789,7 @@ def c17(rac, units, tier, seed):
     for (n, d), a in zip(rats, ans):
         rep.ran(("rat", n, d), True, dict(rational=f"{n}/{d}", answer=a))
         if not (a.get("cbor_eq") and a.get("json_eq")):
-            rep.fail("rational does not survive CBOR/JSON", query=f"Rational {n}/{d}", expected="decodes to an equal value", actual=json.dumps(a)[:200])
+            rep.fail("rational does not survive CBOR/JSON", query=f"Rational {n}/{d}", expected="decodes to an equal value", actual=json.dumps(a)[:200], cmd={"cmd": "serde_rational", "n": str(n), "d": str(d)}, raw=a)
     words = [w for w, _ in _unit_words(units, exclude_offsets=False)]
     exprs = []
     for w in words:
@@ -804,7 +804,7 @@ def c17(rac, units, tier, seed):
             continue   # the word is not accepted with this prefix (C05's concern), nothing to round-trip
         rep.ran(("unit", e), True, dict(unit=e))
         if "panic" in a or not a.get("cbor_eq") or a.get("unit") != a.get("unit2"):
-            rep.fail("unit expression does not survive CBOR", query=f"unit {e}", expected="decodes to an equal unit expression", actual=json.dumps(a, ensure_ascii=False)[:300])
+            rep.fail("unit expression does not survive CBOR", query=f"unit {e}", expected="decodes to an equal unit expression", actual=json.dumps(a, ensure_ascii=False)[:300], cmd={"cmd": "serde_compound", "s": e}, raw=a)
     total = 0
     for path in sorted(glob.glob(os.path.join(rac.repo, "db", "*.bin.gz"))):
         a = rac.ask({"cmd": "constants", "path": path})
@@ -858,16 +858,16 @@ def c07(rac, units, tier, seed):
             rep.fail("number parser panicked", query=f"parse {t!r}", expected=str(exp), actual=a["panic"][:100])
         elif exp is None:
             if "ok" in a:
-                rep.fail("a string that is not a literal was accepted", query=f"parse {t!r}", expected="error", actual=str(frac_of(dict(value=a["ok"]))))
+                rep.fail("a string that is not a literal was accepted", query=f"parse {t!r}", expected="error", actual=str(frac_of(dict(value=a["ok"]))), cmd={"cmd": "rational", "s": t}, raw=a)
         elif exp == "huge":
             continue
         else:
             if "ok" not in a:
-                rep.fail("a literal of the language was rejected", query=f"parse {t!r}", expected=str(exp), actual=json.dumps(a)[:100])
+                rep.fail("a literal of the language was rejected", query=f"parse {t!r}", expected=str(exp), actual=json.dumps(a)[:100], cmd={"cmd": "rational", "s": t}, raw=a)
             else:
                 got = frac_of(dict(value=a["ok"]))
                 if got != exp:
-                    rep.fail("literal read as a different number", query=f"parse {t!r}", expected=str(exp), actual=str(got))
+                    rep.fail("literal read as a different number", query=f"parse {t!r}", expected=str(exp), actual=str(got), cmd={"cmd": "rational", "s": t}, raw=a)
                 accepted.append((t, exp))
     # long literals
     longs = []
@@ -888,7 +888,7 @@ def c07(rac, units, tier, seed):
                 rep.fail("exponent beyond u32 accepted", query=f"parse {t!r}", expected="error", actual="ok")
             continue
         if "ok" not in a or frac_of(dict(value=a["ok"])) != exp:
-            rep.fail("long literal read as a different number", query=f"parse {t!r}", expected=str(exp), actual=json.dumps(a)[:160])
+            rep.fail("long literal read as a different number", query=f"parse {t!r}", expected=str(exp), actual=json.dumps(a)[:160], cmd={"cmd": "rational", "s": t}, raw=a)
     # the same literals written as queries (NUMBER / PERCENTAGE arms): only spellings the lexer reads as one NUMBER token
     qs = [(t, exp) for t, exp in accepted if t and t[0] not in "+-" and t[0] != "e" and t[0] != "E"][: (4000 if tier == "quick" else 40000)]
     qs += [(t, lit_oracle(t)) for t in longs if t and t[0].isdigit() and lit_oracle(t) not in (None, "huge")][:300]
@@ -971,7 +971,8 @@ def c08(rac, units, tier, seed, known_p=()):
         why = display_check(a["s"], x, lim)
         rep.ran(key, True, dict(value=str(x), limit=lim, exponent_limit=el, text=a["s"]) if len(rep.samples) < 6 and x.denominator > 1 else None)
         if why:
-            rep.fail(why, query=f"{x} limit={lim} exponent_limit={el}", expected="the exact value cut off toward zero at the last printed digit, mark iff non-zero digits were cut", actual=a["s"])
+            rep.fail(why, query=f"{x} limit={lim} exponent_limit={el}", expected="the exact value cut off toward zero at the last printed digit, mark iff non-zero digits were cut", actual=a["s"],
+                     cmd={"cmd": "display", "n": str(x.numerator), "d": str(x.denominator), "limit": lim, "exp": el}, raw=a)
     return [rep]
 
 
@@ -1074,6 +1075,10 @@ def replay(prop, path, repo):
         return 1
     rac = Rac(repo)
     try:
+        if w.get("cmd") is not None:
+            a = rac.ask(w["cmd"])
+            print(json.dumps(dict(command=w["cmd"], expected=w.get("expected"), previously=w.get("raw"), now=a), ensure_ascii=False)[:3000])
+            return 1 if a == w.get("raw") else 0
         if w.get("derived_id") is not None:
             a = rac.ask({"cmd": "derived_id", "id": w["derived_id"]})
             print(json.dumps(dict(derived_id=w["derived_id"], previously=w.get("actual"), now=a)))
